@@ -1,10 +1,10 @@
 package main
 
 import (
-	"go/types"
 	"fmt"
 	"go/constant"
 	"go/token"
+	"go/types"
 	"strings"
 
 	"golang.org/x/tools/go/ssa"
@@ -500,6 +500,97 @@ func init() {
 				c.Check(len(bad) == 0, fnKey(f)+" / no-error-swallowed", pos, "%d return(s) answer nil although a call reported an error on that path", len(bad))
 			}
 			c.Stat("writer functions returning error", n)
+		},
+	})
+}
+
+// ------------------------------------------------------------------------------------------------ searcher position cache
+// The searcher remembers, for the last query, a byte offset inside ONE index file. An offset is meaningful only in the
+// file it was taken from: used in another index file it skips that file's first entries.
+
+func init() {
+	register(&Rule{
+		ID: "metriclog.cached-position-own-file", Props: []string{"C17"}, Floor: 2,
+		Doc: "the cached index offset of the searcher is used only with the file it was computed for: getOffsetStartAndFileIdx hands the cached offset out only under `file name == cachedPos.metricFilename` (together with that file's number), and searchOffsetAndRead passes it to findOffsetToStart only for that first file - every later file of the scan starts at offset 0. Otherwise the answer to a query depends on the queries issued before on the same searcher",
+		Run: func(c *Ctx) {
+			get := c.P.Func(mlPkg + ".(*DefaultMetricSearcher).getOffsetStartAndFileIdx")
+			srch := c.P.Func(mlPkg + ".(*DefaultMetricSearcher).searchOffsetAndRead")
+			find := c.P.Func(mlPkg + ".(*DefaultMetricSearcher).findOffsetToStart")
+			if get == nil || srch == nil || find == nil {
+				c.AnchorLost("DefaultMetricSearcher.getOffsetStartAndFileIdx / searchOffsetAndRead / findOffsetToStart")
+				return
+			}
+			// (1) the cached offset leaves getOffsetStartAndFileIdx only for the cached file
+			n, okAll := 0, true
+			why := ""
+			for _, r := range returnsOf(get) {
+				for _, cs := range splitPhiCases(r.Results[0], r.Block(), nil, 0) {
+					if !strings.Contains(accessPath(cs.val), ".curOffsetInIdx") {
+						continue
+					}
+					n++
+					fs := canonFacts(cs.block, cs.extra...)
+					same := false
+					for k := range fs {
+						if strings.Contains(k, " == ") && strings.Contains(k, ".cachedPos.metricFilename") && strings.Contains(k, "{[]string}") {
+							same = true
+						}
+					}
+					if !same {
+						okAll = false
+						why = factList(fs)
+					}
+				}
+			}
+			c.Check(n > 0 && okAll, fnKey(get)+" / cached-offset-only-for-cached-file", get.Pos(), "%d alternative(s) hand out cachedPos.curOffsetInIdx; each under `filenames[j] == cachedPos.metricFilename` (facts of the offending one: [%s])", n, why)
+			// (2) in the scan, the cached offset is used for the first file only
+			var res0 ssa.Value
+			eachInstr(srch, func(ins ssa.Instruction) {
+				if ex, ok := ins.(*ssa.Extract); ok && ex.Index == 0 {
+					if call, ok := ex.Tuple.(*ssa.Call); ok && isStaticCallTo(call, get) {
+						res0 = ex
+					}
+				}
+			})
+			m := 0
+			for _, ci := range callsIn(srch) {
+				if !isStaticCallTo(ci, find) {
+					continue
+				}
+				m++
+				arg := ci.Common().Args[len(ci.Common().Args)-1]
+				ok, msg := true, ""
+				for _, cs := range splitPhiCases(arg, ci.Block(), nil, 0) {
+					if z, isC := constInt(cs.val); isC && z == 0 {
+						continue
+					}
+					if res0 != nil && cs.val == res0 {
+						// the edge carrying the cached offset must not come from inside the loop (i.e. be reachable from the call)
+						if cs.block != ci.Block() || len(cs.extra) > 0 {
+							if !blockReach(ci.Block())[cs.block] && cs.block != ci.Block() {
+								continue
+							}
+						}
+						// ... unless it is selected by comparing the file number with the cached file's number
+						byNumber := false
+						for k := range canonFacts(cs.block, cs.extra...) {
+							if strings.Contains(k, " == ") && strings.Contains(k, "getOffsetStartAndFileIdx(") && strings.Contains(k, "#1") {
+								byNumber = true
+							}
+						}
+						if byNumber {
+							continue
+						}
+						ok, msg = false, "the cached offset is passed again for a later file of the scan"
+						continue
+					}
+					ok, msg = false, "start offset "+accessPath(cs.val)+" is neither the cached offset of the first file nor 0"
+				}
+				c.Check(ok, fmt.Sprintf("%s / findOffsetToStart#%d", fnKey(srch), m), ci.Pos(), "start offset = cached offset for the first file, 0 for every later file (%s)", msg)
+			}
+			if m == 0 {
+				c.Violate(fnKey(srch)+" / findOffsetToStart", srch.Pos(), "the scan no longer calls findOffsetToStart")
+			}
 		},
 	})
 }
